@@ -270,7 +270,7 @@ func c03MutantSpace(tier string) *core.Space {
 
 // ---- trivia: every assignment of separators to the gaps of short programs
 
-var c03Seps = []string{" ", "\t", "\n", "\r\n", "\r", "--c\n", "--[[c]]", "--[=[\n]=]", ""}
+var c03Seps = []string{" ", "\t", "\n", "\r\n", "\r", "--c\n", "--c\r", "--c\r\n", "--[[c]]", "--[=[\n]=]", ""}
 
 func c03TriviaSpace(tier string) *core.Space {
 	maxTok := 4
